@@ -11,6 +11,11 @@ void*         gf_noscript_ptr;
 int            gf_cell_mode, gf_cell_valid;
 unsigned char* gf_cell_addr;
 unsigned char  gf_cell_val;
+/* "uniform buffer" ghost (cell mode): memset(buf, v, n) observed by the harness's memset monitor; a bulk write out
+ * of that buffer transfers v without indexing the real array */
+unsigned char* gf_unif_ptr;
+unsigned char  gf_unif_val;
+unsigned long  gf_unif_n;
 
 /* store the low `total` (<= 8) bytes of v, little endian; loop-free on purpose (a loop in a stub
  * called from a loop under contract would need its own contract) */
@@ -23,6 +28,7 @@ static void gf_reset(void) {
     gf_script_n = 0; gf_script_i = 0; gf_noscript_ptr = NULL;
     gf_cell_mode = 0; gf_cell_valid = 0; gf_cell_addr = NULL; gf_cell_val = 0;
     verif_errno = 0;
+    gf_unif_ptr = NULL; gf_unif_val = 0; gf_unif_n = 0;
 }
 
 static gfile_t* gf_of(FILE* f) {
@@ -53,6 +59,7 @@ size_t fread(void* ptr, size_t size, size_t nmemb, FILE* f) {
         return nmemb;
     }
     if (gf_cell_mode && (total > 8 || ptr == gf_noscript_ptr)) {
+        if (ptr == (void*)gf_unif_ptr) gf_unif_n = 0;   /* the buffer is no longer uniform */
         if (g->w_off >= g->pos && g->w_off < g->pos + (long)total) {
             gf_cell_addr = (unsigned char*)ptr + (g->w_off - g->pos);
             gf_cell_val = g->w_val;
@@ -91,6 +98,7 @@ size_t fwrite(const void* ptr, size_t size, size_t nmemb, FILE* f) {
         if (gf_cell_mode && (total > 8 || ptr == gf_noscript_ptr)) {
             unsigned char const* a = (unsigned char const*)ptr + (g->w_off - g->pos);
             if (gf_cell_valid && a == gf_cell_addr) g->w_val = gf_cell_val;
+            else if (gf_unif_n && ptr == (const void*)gf_unif_ptr && (unsigned long)(g->w_off - g->pos) < gf_unif_n) g->w_val = gf_unif_val;
             else VND(g->w_val, uchar);
         } else {
             g->w_val = ((const unsigned char*)ptr)[g->w_off - g->pos];
